@@ -667,7 +667,7 @@ def storeBits (mOp : MeasureOp) (c : CReg) (value qArg cArg : Nat) : CReg :=
 
 section run
 variable [Add R] [Sub R] [Mul R] [Neg R] [Zero R] [One R] [Div R] [Consts R]
-  [LE R] [DecidableLE R] [HasSqrt R] [RegConsts R]
+  [LE R] [DecidableLE R] [LT R] [DecidableLT R] [HasSqrt R] [RegConsts R]
 
 /-- does `measure_mask(mask)` draw? -/
 def draws (q : QReg R) (mask : Nat) : Bool := mask &&& q.qMask ≠ 0
